@@ -227,15 +227,16 @@ class CallMixin:
         self.index_function(fd)
         callee = st.copy()
         callee.env = dict(bound)
-        saved = (self.file, self.cur_contract, self.loop_counter, self.cls_ctx)
+        saved = (self.file, self.cur_contract, self.loop_counter, self.cls_ctx, getattr(self, "cur_fn_name", ""))
         self.file, self.cur_contract, self.loop_counter, self.cls_ctx = rel, con, [0], owner_cls
+        self.cur_fn_name = qual
         self.call_depth += 1
         try:
             callee.tags.append(qual.split(".")[-1])
             results = self.exec_block(fd.body, callee)
         finally:
             self.call_depth -= 1
-            self.file, self.cur_contract, self.loop_counter, self.cls_ctx = saved
+            self.file, self.cur_contract, self.loop_counter, self.cls_ctx, self.cur_fn_name = saved
         out = []
         for kind, pay, s1 in results:
             s1.env = dict(st.env)  # restore caller frame (heap, pc, defs carry over)
@@ -321,6 +322,11 @@ class CallMixin:
 
     def apply_contract(self, con, bound, st, node):
         bound = self.coerce_args(con, bound, st, node)
+        w = getattr(self, "watch", None)
+        if w is not None and con.qual in w:
+            w[con.qual].append((dict(bound), st.copy()))
+            if con.qual in getattr(self, "stop_at", ()):
+                return []          # relational mode: the path is only needed up to this call
         site = f"call:{con.qual}@{self.ntag(node)}"
         old = st.heap
         c0 = Ctx(bound, old, old, st=st)
@@ -340,6 +346,8 @@ class CallMixin:
             if self.feasible(st, cond):
                 s2 = st.copy()
                 s2.assume(cond)
+                for d in con.spec_defs(c0):
+                    s2.assume(d, name="spec-def")
                 s2.tags.append(f"{con.qual.split('.')[-1]}!{exc}")
                 if not getattr(con, 'assume_exc_safe', con.exc_safe):
                     self.havoc_unless(con, c0, s2)
@@ -565,6 +573,10 @@ class CallMixin:
                     s2.assume(0 <= w, w < sq.n)
                     out.append((Sym(z3.Select(sq.arr, w), sq.ety), s2))
             return out
+        if isinstance(v, Sym) and v.ty == "str" and name in ("startswith", "endswith") and isinstance(args[0], str):
+            from .core import PStr
+            f = uf("str." + name, PStr, PStr, B)       # uninterpreted: only its being a function of the two strings is used
+            return [(Sym(f(v.t, str_const(args[0])), "bool"), st)]
         if isinstance(v, PyList):
             if name == "append":
                 v.items.append(args[0])
